@@ -270,6 +270,48 @@ def build(run):
     for nm_, mk_ in nest:
         pipe(nm_, mk_)
 
+    # ---- shapes: the derivative operators have the textbook shapes whatever the operand (in particular for cellwise-constant operands, which the
+    # constructors fold to zero before any rule runs), and the expansion keeps that shape
+    def shapes():
+        from ufl.sobolevspace import L2 as _L2
+        spec = {"grad": lambda sh, gd: sh + (gd,), "nabla_grad": lambda sh, gd: (gd,) + sh, "div": lambda sh, gd: sh[:-1], "nabla_div": lambda sh, gd: sh[1:],
+                "dx0": lambda sh, gd: sh}
+        ops = {"grad": grad, "nabla_grad": ufl.nabla_grad, "div": div, "nabla_div": ufl.nabla_div, "dx0": lambda e_: e_.dx(0)}
+        n = 0
+        for msh, gd in ((tri, 2), (tet, 3)):
+            cell_ = msh.ufl_cell()
+            for sh in ((), (2,), (3,), (4,), (2, 2), (2, 3), (3, 2), (3, 3), (4, 2), (2, 3, 2)):
+                operands = {"Constant": ufl.Constant(msh, sh),
+                            "DG0 coefficient": ufl.Coefficient(ufl.FunctionSpace(msh, E.FiniteElement("DG", cell_, 0, sh, ufl.pullback.identity_pullback, _L2))),
+                            "2*Constant + DG0": None, "P2 coefficient": ufl.Coefficient(ufl.FunctionSpace(msh, E.LagrangeElement(cell_, 2, sh)))}
+                operands["2*Constant + DG0"] = 2 * operands["Constant"] + operands["DG0 coefficient"]
+                for oname, op in ops.items():
+                    if oname == "div" and (not sh or sh[-1] != gd):
+                        continue
+                    if oname == "nabla_div" and (not sh or sh[0] != gd):
+                        continue
+                    want = spec[oname](sh, gd)
+                    for kind, fo in operands.items():
+                        try:
+                            e = op(fo)
+                            r = apply_derivatives(apply_algebra_lowering(e))
+                        except (ValueError, NotImplementedError) as ex:
+                            if not deliberate(ex):
+                                return violated(f"crash instead of a result or a refusal: {crash_text(ex)}", reproduced=True, backend="exec")
+                            continue
+                        n += 1
+                        for what, x_ in (("the constructed expression", e), ("its expansion", r)):
+                            if tuple(x_.ufl_shape) != tuple(want):
+                                return violated(f"{oname}({kind} of shape {sh}) on a mesh of geometric dimension {gd}: {what} has shape {x_.ufl_shape}, the operator's shape is {want}",
+                                                replay={"operator": oname, "operand": kind, "operand_shape": list(sh), "gdim": gd, "got": list(x_.ufl_shape), "want": list(want)},
+                                                reproduced=True, backend="structural")
+                        if kind != "P2 coefficient" and not isinstance(r, C.Zero):
+                            res = check_same(atoms_world(), r, lambda w, c, env: 0, want, timeout_ms=tmo, what=f"{oname}({kind} {sh}) vanishes")
+                            if res.status != "proved":
+                                return res
+        return proved("exec+structural", vcs=n, sample=f"{n} (operator, operand kind, shape, gdim) cases: textbook shapes before and after expansion; derivatives of cellwise constants vanish")
+    run.add("constructor/derivative-operator-shapes(incl. cellwise-constant operands)", shapes, kind="values")
+
     def canary():
         e = grad(f * g_)
         r = apply_derivatives(e)
